@@ -57,6 +57,8 @@ type issuerSet struct {
 	keyIDLen       int  // != 0: requests are created with a key id argument of this length (kind OddKeyID)
 	plainAddOrigin bool // type 3: the origin is registered through AddOrigin instead of AddOriginWithIndexKey
 	scalarForm     int  // type 3: which encoding of the client secret / request blind an honest run uses (0: reduced 48-byte scalars)
+	withBlinds     bool // requests are created through the ...WithBlind(s) entry points
+	saltLen        int  // type 2: >= 0: caller-supplied salt of this length (kind OddSalt)
 	zeroBlindLen   int  // length of that first blind (32: the zero scalar; other lengths: malformed)
 	zeroBlind      bool // type 5: the request is created with caller-supplied blinds, the first of them zero (kind ZeroBlind)
 	// one client object per token type, constructed once and used for every
@@ -177,7 +179,13 @@ func (s *issuerSet) create(t, n int, key string, challenge []byte, nonces [][]by
 		iss := type1.NewBasicPrivateIssuer(k)
 		o.pubBytes, _ = iss.TokenKey().MarshalBinary()
 		keyIDArg = s.oddKeyID(iss.TokenKeyID())
-		st, err := s.client1().CreateTokenRequest(challenge, nonces[0], keyIDArg, iss.TokenKey())
+		var st type1.BasicPrivateTokenRequestState
+		var err error
+		if s.withBlinds { // the sibling entry point with a caller-supplied blind
+			st, err = s.client1().CreateTokenRequestWithBlind(challenge, nonces[0], keyIDArg, iss.TokenKey(), detBlind(s.seed, 1, "wb"))
+		} else {
+			st, err = s.client1().CreateTokenRequest(challenge, nonces[0], keyIDArg, iss.TokenKey())
+		}
 		o.createErr = err
 		if err == nil {
 			o.reqBytes = append([]byte{}, st.Request().Marshal()...)
@@ -200,7 +208,13 @@ func (s *issuerSet) create(t, n int, key string, challenge []byte, nonces [][]by
 		keyIDArg = s.oddKeyID(iss.TokenKeyID())
 		var st type5.BatchedPrivateTokenRequestState
 		var err error
-		if s.zeroBlind {
+		if s.withBlinds && !s.zeroBlind {
+			blinds := [][]byte{}
+			for i := range nonces {
+				blinds = append(blinds, detBlind(s.seed, 5, fmt.Sprintf("wb%d", i)))
+			}
+			st, err = s.client5().CreateTokenRequestWithBlinds(challenge, nonces, keyIDArg, iss.TokenKey(), blinds)
+		} else if s.zeroBlind {
 			blinds := [][]byte{make([]byte, s.zeroBlindLen)}
 			for i := 1; i < len(nonces); i++ {
 				blinds = append(blinds, detBlind(s.seed, 5, fmt.Sprintf("zb%d", i)))
@@ -222,7 +236,18 @@ func (s *issuerSet) create(t, n int, key string, challenge []byte, nonces [][]by
 		k := rsaKey(rsaIdx(key))
 		iss := type2.NewBasicPublicIssuer(k)
 		o.pubBytes, _ = util.MarshalTokenKeyPSSOID(iss.TokenKey())
-		st, err := type2.NewBasicPublicClient().CreateTokenRequest(challenge, nonces[0], s.oddKeyID(iss.TokenKeyID()), iss.TokenKey())
+		var st type2.BasicPublicTokenRequestState
+		var err error
+		if s.withBlinds || s.saltLen >= 0 { // caller-supplied blind and salt (a salt of another length than 48 bytes included)
+			sl := 48
+			if s.saltLen >= 0 {
+				sl = s.saltLen
+			}
+			st, err = type2.NewBasicPublicClient().CreateTokenRequestWithBlind(challenge, nonces[0], s.oddKeyID(iss.TokenKeyID()), iss.TokenKey(),
+				detBlind(s.seed, 2, "wb"), hashBytes(s.seed, "wb-salt", sl))
+		} else {
+			st, err = type2.NewBasicPublicClient().CreateTokenRequest(challenge, nonces[0], s.oddKeyID(iss.TokenKeyID()), iss.TokenKey())
+		}
 		o.createErr = err
 		if err == nil {
 			o.reqBytes = append([]byte{}, st.Request().Marshal()...)
@@ -369,7 +394,7 @@ func execRun(c *ctx, in ev) ev {
 	mut, _ := in["mut"].(map[string]any)
 	kind, _ := mut["kind"].(string)
 	r := newRand(c.seed, fmt.Sprintf("run-%v", in["rid"]))
-	s := &issuerSet{seed: c.seed, t3w: map[string]*t3World{}}
+	s := &issuerSet{seed: c.seed, t3w: map[string]*t3World{}, saltLen: -1}
 	origin := strings.Repeat("o", olen)
 	if kind == "Id" {
 		s.scalarForm = jInt(in["rid"]) / 2 // (independent of the origin-name alternation below)
@@ -391,6 +416,12 @@ func execRun(c *ctx, in ev) ev {
 	}
 	if kind == "OddKeyID" {
 		s.keyIDLen = jInt(mut["len"])
+	}
+	if kind == "OddSalt" {
+		s.saltLen = jInt(mut["len"])
+	}
+	if wb, _ := mut["with_blinds"].(bool); wb {
+		s.withBlinds = true
 	}
 	s.zeroBlind = kind == "ZeroBlind"
 	s.zeroBlindLen = 32
@@ -640,6 +671,20 @@ func (w *verifyWorld) step(c *ctx, tm map[string]any, r *rand.Rand) ev {
 			tok.KeyID = append([]byte{0}, tok.KeyID...)
 		case "KeyIDLastByteOnly":
 			tok.KeyID = tok.KeyID[31:]
+		case "NonceAppend": // the honest 32 bytes followed by more
+			tok.Nonce = append(tok.Nonce, 0x00, 0x01)
+		case "ContextAppend":
+			tok.Context = append(tok.Context, 0x00)
+		case "KeyIDAppend":
+			tok.KeyID = append(tok.KeyID, 0x7f)
+		case "NonceTrimZero": // the nonce without its last byte (the same bytes when that byte is zero and fields are padded)
+			tok.Nonce = tok.Nonce[:31]
+		case "ShiftKeyIDAuth": // same concatenation, different split between key id and authenticator
+			tok.Authenticator = append([]byte{tok.KeyID[31]}, tok.Authenticator...)
+			tok.KeyID = tok.KeyID[:31]
+		case "ShiftAuthKeyID":
+			tok.KeyID = append(tok.KeyID, tok.Authenticator[0])
+			tok.Authenticator = tok.Authenticator[1:]
 		case "EmptyNonce":
 			tok.Nonce = nil
 		case "EmptyAll":
@@ -704,6 +749,7 @@ type rlWorld struct {
 	secret    []byte
 	prev      *type3.RateLimitedTokenRequest // the last honest request this issuer answered
 	prevBlind []byte
+	saved     map[string][]byte // bytes submitted by earlier steps, by label
 }
 
 func newRLWorld(c *ctx) *rlWorld {
@@ -804,6 +850,17 @@ func (x *rlWorld) step(c *ctx, cls map[string]any, r *rand.Rand) ev {
 			st, _ := q2.CreateTokenRequest(randBytes(r, 9), randNonce(r), blind, w.issuer.TokenKeyID(), w.issuer.TokenKey(), origin, w.issuer.NameKey())
 			req.RequestKey = st.Request().RequestKey
 			enc = remarshal(req)
+		}
+		if l, _ := cls["again"].(string); l != "" && x.saved[l] != nil {
+			// the very bytes of an earlier step once more: the issuer's answer to a request does not depend on
+			// what it was shown before (no verdict of an earlier submission may be remembered in its place)
+			enc = append([]byte{}, x.saved[l]...)
+		}
+		if l, _ := cls["save"].(string); l != "" {
+			if x.saved == nil {
+				x.saved = map[string][]byte{}
+			}
+			x.saved[l] = append([]byte{}, enc...)
 		}
 		resp, key, err := w.issuer.Evaluate(enc)
 		e["ok"] = err == nil
@@ -1003,7 +1060,7 @@ func execDet(c *ctx, in ev) []ev {
 	create := func(rw map[string]any) *pending {
 		t, key, nc, blind, salt := jInt(rw["t"]), rw["key"].(string), rw["nc"].(string), rw["blind"].(string), rw["salt"].(string)
 		pe := &pending{e: ev{"op": "Det", "t": t, "key": key, "nc": nc, "blind": blind, "salt": salt, "ok": false, "req": "", "tok": "", "err": "", "elems": []any{},
-			"bad_token": false, "degenerate": strings.Contains(blind, "zero") || strings.Contains(blind, "short")}}
+			"bad_token": false, "refin": "none", "degenerate": strings.Contains(blind, "zero") || strings.Contains(blind, "short")}}
 		e := pe.e
 		var own [][]byte
 		p := guard(func() {
@@ -1140,6 +1197,19 @@ func execDet(c *ctx, in ev) []ev {
 				return
 			}
 			pe.tok, pe.e["ok"] = tb, true
+			// the state finalized once more (a retry, a stored response finalized again): the token is a function of
+			// the request's arguments, so the second call returns the same token (or refuses)
+			tb2, err := pe.fin()
+			switch {
+			case err == errBadToken:
+				pe.e["refin"], pe.e["bad_token"] = "invalid", true
+			case err != nil:
+				pe.e["refin"] = "error"
+			case bytes.Equal(tb, tb2):
+				pe.e["refin"] = "same"
+			default:
+				pe.e["refin"] = "differs"
+			}
 		})
 		if p != "" {
 			pe.e["err"], pe.e["ok"] = "panic: "+p, false
@@ -1774,6 +1844,17 @@ func genIssuance(c *ctx, emit func(ev)) {
 				for _, kl := range []int{1, 31, 33, 64} {
 					run(t, n, 16, 14, ev{"kind": "OddKeyID", "len": kl})
 				}
+				if t != 3 { // the same through the ...WithBlind(s) entry points
+					for _, nl := range []int{0, 31, 33, 64} {
+						run(t, n, 16, 14, ev{"kind": "OddNonce", "len": nl, "with_blinds": true})
+					}
+					run(t, n, 16, 14, ev{"kind": "OddKeyID", "len": 33, "with_blinds": true})
+				}
+				if t == 2 {
+					for _, sl := range []int{0, 20, 32, 47, 49, 64} {
+						run(2, 1, 16, 0, ev{"kind": "OddSalt", "len": sl})
+					}
+				}
 				if t == 5 {
 					run(5, 1, 16, 0, ev{"kind": "ZeroBlind"})
 					run(5, 3, 16, 0, ev{"kind": "ZeroBlind"})
@@ -1840,7 +1921,8 @@ func genIssuance(c *ctx, emit func(ev)) {
 				ver(t, ev{"kind": "TypeField", "bit": b})
 			}
 			for _, k := range []string{"ShiftNonceContext", "ShiftContextKeyID", "NonceShort", "NonceLong", "KeyIDShort", "KeyIDLong", "KeyIDLastByteOnly",
-				"EmptyNonce", "EmptyAll", "AuthShort", "AuthLong", "AuthEmpty"} {
+				"EmptyNonce", "EmptyAll", "AuthShort", "AuthLong", "AuthEmpty",
+				"NonceAppend", "ContextAppend", "KeyIDAppend", "NonceTrimZero", "ShiftKeyIDAuth", "ShiftAuthKeyID"} {
 				ver(t, ev{"kind": k})
 			}
 			// histories on ONE issuer object: an honest token first, then variants that share its nonce / authenticator
@@ -1850,7 +1932,10 @@ func genIssuance(c *ctx, emit func(ev)) {
 					steps = append(steps, ev{"kind": "Flip", "f": f, "bit": r.Intn(256)}, ev{"kind": "Id"})
 				}
 				steps = append(steps, ev{"kind": "TypeField", "bit": r.Intn(16)}, ev{"kind": "OtherKey"}, ev{"kind": "Id"},
-					ev{"kind": "ShiftNonceContext"}, ev{"kind": "KeyIDLastByteOnly"}, ev{"kind": "AuthPrefix", "k": 5}, ev{"kind": "Id"})
+					ev{"kind": "ShiftNonceContext"}, ev{"kind": "KeyIDLastByteOnly"}, ev{"kind": "AuthPrefix", "k": 5}, ev{"kind": "Id"},
+					// after the honest token was accepted by this issuer object: the same fields with bytes appended / moved
+					ev{"kind": "NonceAppend"}, ev{"kind": "ContextAppend"}, ev{"kind": "KeyIDAppend"}, ev{"kind": "AuthLong"},
+					ev{"kind": "ShiftKeyIDAuth"}, ev{"kind": "ShiftAuthKeyID"}, ev{"kind": "NonceTrimZero"}, ev{"kind": "Id"})
 				vid++
 				emit(ev{"op": "VerifySeq", "rid": vid, "t": t, "steps": steps})
 			}
@@ -1888,6 +1973,29 @@ func genIssuance(c *ctx, emit func(ev)) {
 				ev{"kind": "ReplayEncFlipped", "bit": r.Intn(2000)}, ev{"kind": "Flip", "f": "sig", "bit": r.Intn(768)}, ev{"kind": "Id"},
 				ev{"kind": "Unregistered", "variant": "long"}, ev{"kind": "Unregistered", "variant": "empty"}, ev{"kind": "Id"},
 				ev{"kind": "ReplayEncOtherKey"}, ev{"kind": "BadKey"}, ev{"kind": "ReplaySame"}}
+			qid++
+			emit(ev{"op": "RLSeq", "rid": qid, "steps": steps})
+			// every altered request submitted twice (and a third time after an honest one) to the same issuer object
+			var alts []ev
+			for _, f := range []string{"type", "request_key", "name_key_id", "enc_len", "enc", "sig"} {
+				alts = append(alts, ev{"kind": "Flip", "f": f, "bit": r.Intn(4000)})
+			}
+			alts = append(alts, ev{"kind": "OtherSigner"}, ev{"kind": "OtherContents"}, ev{"kind": "BadKey"}, ev{"kind": "WrongAAD"},
+				ev{"kind": "BadInner", "k": 100}, ev{"kind": "ForeignIssuer"}, ev{"kind": "Unregistered", "variant": "prefix"},
+				ev{"kind": "NoSig"}, ev{"kind": "Trailing"}, ev{"kind": "ReplayEncOtherKey"})
+			steps = []any{ev{"kind": "Id"}}
+			for i, a := range alts {
+				l := fmt.Sprintf("s%d", i)
+				first, again := ev{"save": l}, ev{"again": l}
+				for k, v := range a {
+					first[k], again[k] = v, v
+				}
+				steps = append(steps, first, again)
+				if r.Intn(3) == 0 {
+					steps = append(steps, ev{"kind": "Id", "save": "h"}, ev{"kind": "Id", "again": "h"})
+				}
+				steps = append(steps, again)
+			}
 			qid++
 			emit(ev{"op": "RLSeq", "rid": qid, "steps": steps})
 		}
